@@ -325,6 +325,37 @@ fn au_roundtrip(rng: &mut Rng, rep: &mut Report) {
     }
 }
 
+/// PduWriter: every PDU becomes one file holding its serialised samples.
+fn pdu_writer_roundtrip(rng: &mut Rng, rep: &mut Report) {
+    use rustradio::block::Block;
+    let n = rng.range(0, 12);
+    let pdus: Vec<Vec<f32>> = (0..n).map(|_| { let l = rng.range(0, 300); (0..l).map(|_| <f32 as Ty>::from_bits(rng)).collect() }).collect();
+    let dir = tempfile::tempdir().expect("tempdir");
+    let (w, r) = rustradio::stream::new_nocopy_stream::<Vec<f32>>();
+    let mut b = PduWriter::new(r, dir.path());
+    rep.count("pdu_writer_runs", 1);
+    let replay = json!({"part": "pdu-writer", "pdus": n});
+    for p in &pdus {
+        w.push(p.clone(), &[]);
+        if let Err(e) = catch(|| b.work().map(|_| ())) {
+            rep.violation("C14|PduWriter|panic", e, replay);
+            return;
+        }
+    }
+    let mut files: Vec<(u128, Vec<u8>)> = std::fs::read_dir(dir.path())
+        .unwrap()
+        .filter_map(|e| e.ok())
+        .filter_map(|e| Some((e.file_name().to_str()?.parse::<u128>().ok()?, std::fs::read(e.path()).ok()?)))
+        .collect();
+    files.sort_by_key(|f| f.0);
+    let want: Vec<Vec<u8>> = pdus.iter().map(|p| serialize_all(p)).collect();
+    let got: Vec<Vec<u8>> = files.into_iter().map(|f| f.1).collect();
+    rep.count("bytes_moved", want.iter().map(|w| w.len() as u64).sum());
+    if got != want {
+        rep.violation("C14|PduWriter|files-differ-from-pdus", format!("{} PDUs written, {} files found, contents equal: {}", want.len(), got.len(), got.iter().zip(&want).all(|(a, b)| a == b)), replay);
+    }
+}
+
 fn mkfifo(path: &std::path::Path) -> bool {
     let c = std::ffi::CString::new(path.to_str().unwrap()).unwrap();
     // SAFETY: plain libc call with a valid C string.
@@ -588,6 +619,7 @@ pub fn main(opts: &Opts) -> Report {
             }
         }
         au_roundtrip(&mut r, &mut rep);
+        pdu_writer_roundtrip(&mut r, &mut rep);
     }
     let _ = opts;
     rep
